@@ -20,7 +20,7 @@ def _keeper(w, src, dname):
 
 
 def build_design(desc):
-    from amaranth.hdl import Module, Signal, ClockSignal, ResetSignal, Instance, Const, DomainRenamer
+    from amaranth.hdl import Module, Signal, ClockSignal, ResetSignal, Instance, Const, DomainRenamer, MemoryData, MemoryInstance
     from amaranth.lib.memory import Memory
     from vlib.gen_prog import build_program
     top = Module()
@@ -54,6 +54,18 @@ def build_design(desc):
             m.d.comb += [wp.addr.eq(x), wp.data.eq(y), wp.en.eq(1), rp.addr.eq(y)]
             ports.append(rp.data)
         ports.append(y)
+        if sub.get("rawmem"):
+            # the low-level memory primitive, created once and kept by the module (a leaf fragment that is used
+            # as-is every time the design is elaborated), clocked by an implicitly created domain
+            md = MemoryData(shape=max(sub["w"], 1), depth=2, init=[1])
+            rmem = MemoryInstance(data=md)
+            rdata = Signal(max(sub["w"], 1), name="raw_rd")
+            wi = rmem.write_port(domain=sub["dom"], addr=x[0] if sub["w"] else Const(0, 1), data=y if sub["w"] else Const(0, 1),
+                                 en=Const(1, 1))
+            rmem.read_port(domain=sub["dom"], addr=y[0] if sub["w"] else Const(0, 1), data=rdata, en=Const(1, 1),
+                           transparent_for=[wi])
+            m.submodules.rawmem = rmem
+            ports.append(rdata)
         if sub.get("keeper"):
             # a component that keeps its ClockDomain object between elaborations and defines it in its module,
             # wrapped in a DomainRenamer (the renamer renames the kept object)
